@@ -63,6 +63,14 @@ func genC18(kind string) func(r *core.Rng) any {
 			// finding F-C18-textwidth-script-runs
 			c.Text = strings.ReplaceAll(c.Text, "ΑΒΓ αβγ", "abc ABC")
 		}
+		if kind == "marks" {
+			// combining marks without precomposed forms: the shaper positions them with glyph offsets
+			c.Font = 0
+			c.Text = ""
+			for k := r.IntRange(1, 4); k > 0; k-- {
+				c.Text += core.PickS(r, []string{"q\u0301", "x\u0302", "m\u0303", "b\u0308\u0301", "Z\u030c\u0323", "w\u0307", "g\u0304", "k\u0301 ", "ab", " "})
+			}
+		}
 		if r.Chance(0.3) {
 			// random letters and digits: runs of equal advances, many distinct glyphs
 			var sb strings.Builder
@@ -448,7 +456,10 @@ func c18Check(ci any, o *core.Obs) {
 				r    rune
 				x, y float64
 				adv  int32
-			}{g.ID, g.Text, x0 + x + pen, y0 + y, g.XAdvance})
+			}{g.ID, g.Text, x0 + x + pen + k*float64(g.XOffset), y0 + y + k*float64(g.YOffset), g.XAdvance})
+			if g.XOffset != 0 || g.YOffset != 0 {
+				o.Count("glyphs_with_offsets", 1)
+			}
 			vertical = append(vertical, false)
 			second = append(second, false)
 			pen += k * float64(g.XAdvance)
@@ -488,6 +499,7 @@ func c18Check(ci any, o *core.Obs) {
 	var cur *c18Font
 	size := 0.0
 	tm := affI
+	rise := 0.0
 	num := func(v any) float64 { x, _ := refpdf.Num(v); return x }
 	for _, op := range ops {
 		a := op.Operands
@@ -513,6 +525,11 @@ func c18Check(ci any, o *core.Obs) {
 			tm = aff{num(a[0]), num(a[2]), num(a[4]), num(a[1]), num(a[3]), num(a[5])}
 		case "Td":
 			tm = tm.mul(affT(num(a[0]), num(a[1])))
+		case "Ts":
+			rise = num(a[0])
+		case "Tc", "Tw", "Tz", "TL", "TD", "T*", "'", "\"":
+			o.Skip("the reader does not model the text operator " + op.Name)
+			return
 		case "TJ", "Tj":
 			if cur == nil {
 				fail("pdf", "text shown without a font")
@@ -534,7 +551,7 @@ func c18Check(ci any, o *core.Obs) {
 					}
 					for i := 0; i+1 < len(v); i += 2 {
 						code := int(v[i])<<8 | int(v[i+1])
-						pos := ctm.mul(tm).dot(Pt{X: pen, Y: 0})
+						pos := ctm.mul(tm).dot(Pt{X: pen, Y: rise})
 						shown = append(shown, c18Shown{code: code, x: pos.X * 25.4 / 72, y: pos.Y * 25.4 / 72, font: cur, size: size})
 						pen += cur.width(code) / 1000 * size
 					}
@@ -657,6 +674,7 @@ func init() {
 			{Name: "texts", Quick: 600, Thorough: 20000, Gen: genC18("texts")},
 			{Name: "justified", Quick: 300, Thorough: 8000, Gen: genC18("justified")},
 			{Name: "vertical", Quick: 200, Thorough: 4000, Gen: genC18("vertical"), Note: "the same font used for horizontal text and for rotated text of a vertical writing mode in one document"},
+			{Name: "marks", Quick: 200, Thorough: 3000, Gen: genC18("marks"), Note: "combining marks positioned by glyph offsets (GPOS mark-to-base)"},
 			{Name: "upright", Quick: 100, Thorough: 1000, Gen: genC18("upright"), WitnessOnly: true, Note: "upright glyphs in a vertical writing mode: the glyphs advance vertically in the layout, but the font is embedded with encoding Identity-H and without vertical metrics (W2/DW2), so a reader advances them horizontally"},
 			{Name: "cff-full", Quick: 100, Thorough: 1000, Gen: genC18("cff-full"), WitnessOnly: true, Note: "CFF fonts embedded without subsetting: character codes are the subsetter's codes and a CIDToGIDMap is written, but for a CIDFontType0 with a non-CID-keyed CFF program a reader takes the CID as the glyph index, so every glyph but .notdef selects a different outline"},
 		},
